@@ -282,8 +282,8 @@ Qed.
 
 (* ------------------------------------------------ the exclusion predicate -- *)
 Definition is_char (v : sval) : bool := match v with SChar _ => true | _ => false end.
-Definition excl (v : sval) : bool := bad v || is_char v.
-Definition clean (v : sval) : Prop := sub_exists excl v = false.
+Definition excl (q : bool) (v : sval) : bool := bad q v || is_char v.
+Definition clean (q : bool) (v : sval) : Prop := sub_exists (excl q) v = false.
 
 Lemma sub_exists_unfold p v :
   sub_exists p v =
@@ -344,16 +344,28 @@ Proof.
 Qed.
 
 (* the theorem's hypothesis in terms of the check's functions *)
-Lemma clean_iff v : clean v <-> (known_class v = 0%N /\ has_char v = false).
+Lemma clean_iff q v : clean q v <-> (known_class q v = 0%N /\ has_char v = false).
 Proof.
   unfold clean, known_class, has_char.
-  rewrite (sub_exists_ext excl
-             (fun x => bad_some_null x || (bad_nonfinite x || (bad_empty_tuple_variant x || (bad_int128 x || is_char x)))) v).
+  rewrite (sub_exists_ext (excl q)
+             (fun x => bad_some_null x || (bad_nonfinite x || ((q && bad_empty_tuple_variant x) || (bad_int128 x || is_char x)))) v).
   2:{ intros x. unfold excl, bad.
-      destruct (bad_some_null x), (bad_nonfinite x), (bad_empty_tuple_variant x), (bad_int128 x), (is_char x); reflexivity. }
+      destruct (bad_some_null x), (bad_nonfinite x), q, (bad_empty_tuple_variant x), (bad_int128 x), (is_char x); reflexivity. }
   rewrite !sub_exists_orb.
   fold is_char.
-  destruct (sub_exists bad_some_null v), (sub_exists bad_nonfinite v), (sub_exists bad_empty_tuple_variant v),
+  assert (sub_exists (fun x => q && bad_empty_tuple_variant x) v = q && sub_exists bad_empty_tuple_variant v) as ->.
+  { destruct q; cbn [andb]; [apply sub_exists_ext; reflexivity|].
+    clear. induction v using sval_ind';
+      match goal with |- sub_exists _ ?V = _ => rewrite (sub_exists_unfold _ V) end; cbn [orb].
+    - destruct v; try contradiction; reflexivity.
+    - exact IHv.
+    - exact IHv.
+    - exact IHv.
+    - induction H as [|x l Hx F IH]; cbn [existsb]; [reflexivity|]. now rewrite Hx, IH.
+    - induction H as [|x l Hx F IH]; cbn [existsb]; [reflexivity|]. now rewrite Hx, IH.
+    - induction H as [|x l Hx F IH]; cbn [existsb]; [reflexivity|]. now rewrite Hx, IH.
+    - induction H as [|x l Hx F IH]; cbn [existsb]; [reflexivity|]. now rewrite Hx, IH. }
+  destruct q, (sub_exists bad_some_null v), (sub_exists bad_nonfinite v), (sub_exists bad_empty_tuple_variant v),
            (sub_exists bad_int128 v), (sub_exists is_char v); cbn; split; try discriminate; try tauto;
     intros [? ?]; discriminate.
 Qed.
@@ -388,22 +400,22 @@ Proof.
 Qed.
 
 (* ------------------------------------------------- unfolding equations --- *)
-Lemma de_option t g :
-  de (TOption t) g = match g with GNull => Ok SNone | _ => bindo (de t g) (fun v => Ok (SSome v)) end.
+Lemma de_option q t g :
+  de q (TOption t) g = match g with GNull => Ok SNone | _ => bindo (de q t g) (fun v => Ok (SSome v)) end.
 Proof. reflexivity. Qed.
-Lemma de_seq t l : de (TSeq t) (GList l) = bindo (mapo (de t) l) (fun r => Ok (SSeq r)).
+Lemma de_seq q t l : de q (TSeq t) (GList l) = bindo (mapo (de q t) l) (fun r => Ok (SSeq r)).
 Proof. reflexivity. Qed.
-Lemma de_map t o : de (TMap t) (GObj o) = bindo (mapo_snd (de t) o) (fun r => Ok (SMap (bt_of_list r))).
+Lemma de_map q t o : de q (TMap t) (GObj o) = bindo (mapo_snd (de q t) o) (fun r => Ok (SMap (bt_of_list r))).
 Proof. reflexivity. Qed.
-Lemma de_newtype t g : de (TNewtype t) g = bindo (de t g) (fun v => Ok (SNewtype v)).
+Lemma de_newtype q t g : de q (TNewtype t) g = bindo (de q t g) (fun v => Ok (SNewtype v)).
 Proof. reflexivity. Qed.
-Lemma de_tuple ts l : de (TTuple ts) (GList l) = bindo (map2o de ts l) (fun r => Ok (STuple r)).
+Lemma de_tuple q ts l : de q (TTuple ts) (GList l) = bindo (map2o (de q) ts l) (fun r => Ok (STuple r)).
 Proof. reflexivity. Qed.
-Lemma de_struct fs o : de (TStruct fs) (GObj o) = bindo (de_fields de fs o) (fun r => Ok (SStruct r)).
+Lemma de_struct q fs o : de q (TStruct fs) (GObj o) = bindo (de_fields (de q) fs o) (fun r => Ok (SStruct r)).
 Proof. reflexivity. Qed.
-Lemma de_enum_str vs s : de (TEnum vs) (GStr s) = de_variant de s None vs.
+Lemma de_enum_str q vs s : de q (TEnum vs) (GStr s) = de_variant q (de q) s None vs.
 Proof. reflexivity. Qed.
-Lemma de_enum_obj vs k p : de (TEnum vs) (GObj [(k, p)]) = de_variant de k (Some p) vs.
+Lemma de_enum_obj q vs k p : de q (TEnum vs) (GObj [(k, p)]) = de_variant q (de q) k (Some p) vs.
 Proof. reflexivity. Qed.
 
 Lemma ser_seq l : ser (SSeq l) = bindo (mapo ser l) (fun gl => Ok (GList gl)).
@@ -442,17 +454,17 @@ Proof. reflexivity. Qed.
 
 (* ------------------------------------------------------- the round trip -- *)
 (* what is proved for one type *)
-Definition RT (t : sty) : Prop :=
-  forall v, wf_ty t = true -> has_type t v = true -> clean v ->
-            exists g, ser v = Ok g /\ de t g = Ok v.
+Definition RT (q : bool) (t : sty) : Prop :=
+  forall v, wf_ty t = true -> has_type t v = true -> clean q v ->
+            exists g, ser v = Ok g /\ de q t g = Ok v.
 
-Lemma clean_inv v :
-  clean v ->
-  excl v = false /\
+Lemma clean_inv q v :
+  clean q v ->
+  excl q v = false /\
   match v with
-  | SSome v' | SNewtype v' | SVariant _ _ v' => clean v'
-  | SSeq l | STuple l => Forall clean l
-  | SMap l | SStruct l => Forall (fun kv => clean (snd kv)) l
+  | SSome v' | SNewtype v' | SVariant _ _ v' => clean q v'
+  | SSeq l | STuple l => Forall (clean q) l
+  | SMap l | SStruct l => Forall (fun kv => clean q (snd kv)) l
   | _ => True
   end.
 Proof.
@@ -461,10 +473,10 @@ Proof.
   destruct v; try exact I; try exact H2; apply existsb_false_Forall in H2; exact H2.
 Qed.
 
-Lemma tuple_rt ts :
-  Forall RT ts ->
-  forall l, forallb wf_ty ts = true -> all2 has_type ts l = true -> Forall clean l ->
-            exists gl, mapo ser l = Ok gl /\ map2o de ts gl = Ok l.
+Lemma tuple_rt q ts :
+  Forall (RT q) ts ->
+  forall l, forallb wf_ty ts = true -> all2 has_type ts l = true -> Forall (clean q) l ->
+            exists gl, mapo ser l = Ok gl /\ map2o (de q) ts gl = Ok l.
 Proof.
   induction 1 as [|t ts Ht F IH]; intros [|v l] W T C; cbn [all2] in T; try discriminate.
   - exists []. split; reflexivity.
@@ -481,12 +493,12 @@ Proof.
   apply str_eqb_eq in H0. subst. cbn [map fst]. f_equal. now apply IH.
 Qed.
 
-Lemma fields_rt fs :
-  Forall (fun p => RT (snd p)) fs ->
+Lemma fields_rt q fs :
+  Forall (fun p => RT q (snd p)) fs ->
   forall l ofull, forallb (fun p => wf_ty (snd p)) fs = true -> fields_typed has_type fs l = true ->
-                  Forall (fun kv => clean (snd kv)) l ->
+                  Forall (fun kv => clean q (snd kv)) l ->
                   exists o, mapo_snd ser l = Ok o /\ map fst o = map fst l /\
-                            ((forall k g, In (k, g) o -> sassoc k ofull = Some g) -> de_fields de fs ofull = Ok l).
+                            ((forall k g, In (k, g) o -> sassoc k ofull = Some g) -> de_fields (de q) fs ofull = Ok l).
 Proof.
   induction 1 as [|[n t] fs Ht F IH]; intros [|[n' v] l] ofull W T C; cbn [fields_typed] in T; try discriminate.
   - exists []. repeat split; reflexivity.
@@ -506,12 +518,12 @@ Proof.
   intros N H E. subst gl. apply mapo_length in H. destruct l; [congruence|discriminate].
 Qed.
 
-Lemma variant_rt vs :
-  Forall (fun p => RT (snd (snd p))) vs ->
+Lemma variant_rt q vs :
+  Forall (fun p => RT q (snd (snd p))) vs ->
   forall n k p,
     forallb (fun p => payload_shape (fst (snd p)) (snd (snd p)) && wf_ty (snd (snd p))) vs = true ->
-    variant_typed has_type n k p vs = true -> clean (SVariant n k p) ->
-    exists g, ser (SVariant n k p) = Ok g /\ de (TEnum vs) g = Ok (SVariant n k p).
+    variant_typed has_type n k p vs = true -> clean q (SVariant n k p) ->
+    exists g, ser (SVariant n k p) = Ok g /\ de q (TEnum vs) g = Ok (SVariant n k p).
 Proof.
   induction 1 as [|[n' [k' t]] vs Ht F IH]; intros n k p W T C; cbn [variant_typed] in T; [discriminate|].
   cbn [forallb fst snd] in W. apply andb_true_iff in W as [W0 W2]. apply andb_true_iff in W0 as [Wp W1].
@@ -541,12 +553,12 @@ Proof.
     destruct (Ht (STuple l) W1 T Cp) as (g & Hs & Hd).
     rewrite ser_tuple in Hs. destruct (mapo ser l) as [gl| | |] eqn:Hm; cbn [bindo] in Hs; try discriminate.
     inversion Hs; subst g.
-    assert (gl <> []) as NE.
-    { eapply ser_glist_nonempty; [|exact Hm]. intros ->.
-      unfold excl, bad in Cx. cbn in Cx. discriminate. }
     exists (GObj [(n, GList gl)]). rewrite ser_variant, ser_tuple, Hm by discriminate. split; [reflexivity|].
     rewrite de_enum_obj. cbn [de_variant]. rewrite str_eqb_refl.
-    destruct gl as [|g0 gl]; [congruence|]. rewrite Hd. reflexivity.
+    destruct gl as [|g0 gl]; [|rewrite Hd; reflexivity].
+    destruct q; [|rewrite Hd; reflexivity].
+    exfalso. apply mapo_length in Hm. destruct l; [|discriminate].
+    unfold excl, bad in Cx. cbn in Cx. discriminate.
   - (* struct *)
     destruct t; try discriminate. destruct p; try discriminate.
     destruct (Ht (SStruct l) W1 T Cp) as (g & Hs & Hd).
@@ -564,21 +576,21 @@ Lemma ity_same w w' z :
   end = true -> w = w' /\ in_range w z = true.
 Proof. destruct w, w'; intros H; try discriminate; split; auto. Qed.
 
-Theorem roundtrip_all : forall t, RT t.
+Theorem roundtrip_all : forall q t, RT q t.
 Proof.
-  induction t using sty_ind'; intros v W T C; apply clean_inv in C as [Cx Cc].
+  intros q. induction t using sty_ind'; intros v W T C; apply clean_inv in C as [Cx Cc].
   - destruct v; try discriminate. eexists; split; reflexivity.
   - destruct v; try discriminate. cbn [has_type] in T. apply ity_same in T as [<- R].
-    unfold excl, bad in Cx; cbn in Cx; rewrite ?orb_false_r in Cx.
+    unfold excl, bad in Cx; cbn in Cx; rewrite ?andb_false_r in Cx; cbn [orb] in Cx; rewrite ?orb_false_r in Cx.
     exists (GInt z). cbn [ser de]. rewrite Cx, R. split; reflexivity.
   - destruct v; try discriminate. cbn [has_type] in T.
-    unfold excl, bad in Cx; cbn in Cx; rewrite ?orb_false_r in Cx. apply negb_false_iff in Cx.
+    unfold excl, bad in Cx; cbn in Cx; rewrite ?andb_false_r in Cx; cbn [orb] in Cx; rewrite ?orb_false_r in Cx. apply negb_false_iff in Cx.
     rewrite Cx in T. cbn in T. apply andb_true_iff in T as [_ T]. apply N.eqb_eq in T.
     exists (GFloat bits). cbn [ser de]. rewrite Cx, T. split; reflexivity.
   - destruct v; try discriminate.
-    unfold excl, bad in Cx; cbn in Cx; rewrite ?orb_false_r in Cx. apply negb_false_iff in Cx.
+    unfold excl, bad in Cx; cbn in Cx; rewrite ?andb_false_r in Cx; cbn [orb] in Cx; rewrite ?orb_false_r in Cx. apply negb_false_iff in Cx.
     exists (GFloat bits). cbn [ser de]. rewrite Cx. split; reflexivity.
-  - destruct v; discriminate.
+  - destruct v; try discriminate. unfold excl in Cx. cbn [is_char] in Cx. rewrite orb_true_r in Cx. discriminate.
   - destruct v; try discriminate. eexists; split; reflexivity.
   - destruct v; try discriminate. eexists; split; reflexivity.
   - destruct v; try discriminate. eexists; split; reflexivity.
@@ -588,25 +600,25 @@ Proof.
     + exists GNull. split; reflexivity.
     + cbn [has_type wf_ty] in T, W. destruct (IHt v W T Cc) as (g & Hs & Hd).
       exists g. cbn [ser]. split; [exact Hs|]. rewrite de_option, Hd.
-      unfold excl, bad in Cx; cbn in Cx; rewrite ?orb_false_r in Cx. unfold ser_is_null in Cx. rewrite Hs in Cx.
+      unfold excl, bad in Cx; cbn in Cx; rewrite ?andb_false_r in Cx; cbn [orb] in Cx; rewrite ?orb_false_r in Cx. unfold ser_is_null in Cx. rewrite Hs in Cx.
       destruct g; try reflexivity. discriminate.
   - (* seq *)
     destruct v; try discriminate. rewrite has_type_seq in T. cbn [wf_ty] in W.
     apply forallb_Forall in T.
-    assert (Forall (fun x => exists y, ser x = Ok y /\ de t y = Ok x) l) as F.
+    assert (Forall (fun x => exists y, ser x = Ok y /\ de q t y = Ok x) l) as F.
     { clear Cx. induction l as [|x l IHl]; [constructor|].
       apply Forall_cons_iff in T as [T1 T2]. apply Forall_cons_iff in Cc as [C1 C2].
       constructor; [apply IHt; assumption|apply IHl; assumption]. }
-    destruct (mapo_rt ser (de t) l F) as (gl & Hs & Hd).
+    destruct (mapo_rt ser (de q t) l F) as (gl & Hs & Hd).
     exists (GList gl). rewrite ser_seq, Hs, de_seq, Hd. split; reflexivity.
   - (* map *)
     destruct v; try discriminate. rewrite has_type_map in T. cbn [wf_ty] in W.
     apply andb_true_iff in T as [K T]. apply forallb_Forall in T.
-    assert (Forall (fun kv => exists y, ser (snd kv) = Ok y /\ de t y = Ok (snd kv)) l) as F.
+    assert (Forall (fun kv => exists y, ser (snd kv) = Ok y /\ de q t y = Ok (snd kv)) l) as F.
     { clear Cx K. induction l as [|x l IHl]; [constructor|].
       apply Forall_cons_iff in T as [T1 T2]. apply Forall_cons_iff in Cc as [C1 C2].
       constructor; [apply IHt; assumption|apply IHl; assumption]. }
-    destruct (mapo_snd_rt ser (de t) l F) as (o & Hs & Hd & Hk).
+    destruct (mapo_snd_rt ser (de q t) l F) as (o & Hs & Hd & Hk).
     exists (GObj o). rewrite ser_map, Hs. cbn [bindo].
     rewrite obj_of_list_nodup by (rewrite Hk; apply strong_snodup, keys_sorted_strong, K).
     split; [reflexivity|]. rewrite de_map, Hd. cbn [bindo]. now rewrite (bt_of_list_sorted l K).
@@ -616,12 +628,12 @@ Proof.
     rewrite de_newtype, Hd. reflexivity.
   - (* tuple / tuple struct *)
     destruct v; try discriminate. rewrite has_type_tuple in T. rewrite wf_tuple in W.
-    destruct (tuple_rt ts H l W T Cc) as (gl & Hs & Hd).
+    destruct (tuple_rt q ts H l W T Cc) as (gl & Hs & Hd).
     exists (GList gl). rewrite ser_tuple, Hs, de_tuple, Hd. split; reflexivity.
   - (* struct *)
     destruct v; try discriminate. rewrite has_type_struct in T. rewrite wf_struct in W.
     apply andb_true_iff in W as [ND W].
-    destruct (fields_rt fs H l (obj_of_list (match mapo_snd ser l with Ok o => o | _ => [] end)) W T Cc)
+    destruct (fields_rt q fs H l (obj_of_list (match mapo_snd ser l with Ok o => o | _ => [] end)) W T Cc)
       as (o & Hs & Hk & Hd).
     rewrite Hs in Hd.
     assert (snodup (map fst o) = true) as NDo by (rewrite Hk, (fields_typed_keys fs l T); exact ND).
@@ -632,62 +644,60 @@ Proof.
   - (* enum *)
     destruct v; try discriminate. rewrite has_type_enum in T. rewrite wf_enum in W.
     apply andb_true_iff in W as [_ W].
-    apply (variant_rt vs H n k v W T).
+    apply (variant_rt q vs H n k v W T).
     unfold clean. rewrite sub_exists_unfold. rewrite Cx. exact Cc.
 Qed.
 
 (* the statement in terms of the functions the check evaluates *)
-Theorem roundtrip_known_class t v :
-  wf_ty t = true -> has_type t v = true -> known_class v = 0%N -> has_char v = false ->
-  roundtrip t v = Ok v.
+Theorem roundtrip_known_class q t v :
+  wf_ty t = true -> has_type t v = true -> known_class q v = 0%N -> has_char v = false ->
+  roundtrip q t v = Ok v.
 Proof.
-  intros W T K Hc. destruct (roundtrip_all t v W T) as (g & Hs & Hd).
+  intros W T K Hc. destruct (roundtrip_all q t v W T) as (g & Hs & Hd).
   - apply clean_iff. split; assumption.
   - unfold roundtrip. rewrite Hs. exact Hd.
 Qed.
 
-Theorem ser_total t v :
-  wf_ty t = true -> has_type t v = true -> known_class v = 0%N -> has_char v = false ->
-  exists g, ser v = Ok g.
+(* once the field-less tuple variant is repaired (flag off) class 3 is empty *)
+Lemma known_class_off v : known_class false v <> 3%N.
 Proof.
-  intros W T K Hc. destruct (roundtrip_all t v W T) as (g & Hs & _).
-  - apply clean_iff. split; assumption.
-  - exists g. exact Hs.
+  unfold known_class. cbn [andb].
+  destruct (sub_exists bad_some_null v), (sub_exists bad_nonfinite v), (sub_exists bad_int128 v); discriminate.
 Qed.
 
 (* ---- refutations: one witness per excluded class ------------------------ *)
 Definition NAN64 : N := 9221120237041090560%N.   (* 0x7FF8000000000000 *)
 
-Lemma some_none_refuted :
+Lemma some_none_refuted q :
   let t := TOption (TOption (TInt I32)) in let v := SSome SNone in
-  wf_ty t = true /\ has_type t v = true /\ known_class v = 1%N /\ roundtrip t v = Ok SNone.
-Proof. vm_compute. repeat split; reflexivity. Qed.
+  wf_ty t = true /\ has_type t v = true /\ known_class q v = 1%N /\ roundtrip q t v = Ok SNone.
+Proof. destruct q; vm_compute; repeat split; reflexivity. Qed.
 
-Lemma some_unit_refuted :
+Lemma some_unit_refuted q :
   let t := TOption TUnit in let v := SSome SUnit in
-  wf_ty t = true /\ has_type t v = true /\ known_class v = 1%N /\ roundtrip t v = Ok SNone.
-Proof. vm_compute. repeat split; reflexivity. Qed.
+  wf_ty t = true /\ has_type t v = true /\ known_class q v = 1%N /\ roundtrip q t v = Ok SNone.
+Proof. destruct q; vm_compute; repeat split; reflexivity. Qed.
 
-Lemma some_nan_refuted :
+Lemma some_nan_refuted q :
   let t := TOption TF64 in let v := SSome (SF64 NAN64) in
-  wf_ty t = true /\ has_type t v = true /\ known_class v = 1%N /\ roundtrip t v = Ok SNone.
-Proof. vm_compute. repeat split; reflexivity. Qed.
+  wf_ty t = true /\ has_type t v = true /\ known_class q v = 1%N /\ roundtrip q t v = Ok SNone.
+Proof. destruct q; vm_compute; repeat split; reflexivity. Qed.
 
-Lemma nonfinite_refuted :
+Lemma nonfinite_refuted q :
   let t := TF64 in let v := SF64 NAN64 in
-  wf_ty t = true /\ has_type t v = true /\ known_class v = 2%N /\ roundtrip t v = Err E_DE.
-Proof. vm_compute. repeat split; reflexivity. Qed.
+  wf_ty t = true /\ has_type t v = true /\ known_class q v = 2%N /\ roundtrip q t v = Err E_DE.
+Proof. destruct q; vm_compute; repeat split; reflexivity. Qed.
 
 Lemma empty_tuple_variant_refuted :
   let t := TEnum [([90%N], (KTuple, TTuple []))] in let v := SVariant [90%N] KTuple (STuple []) in
-  wf_ty t = true /\ has_type t v = true /\ known_class v = 3%N /\
-  ser v = Ok (GObj [([90%N], GList [])]) /\ roundtrip t v = Err E_DE.
+  wf_ty t = true /\ has_type t v = true /\ known_class true v = 3%N /\
+  ser v = Ok (GObj [([90%N], GList [])]) /\ roundtrip true t v = Err E_DE /\ roundtrip false t v = Ok v.
 Proof. vm_compute. repeat split; reflexivity. Qed.
 
-Lemma int128_refuted :
+Lemma int128_refuted q :
   let t := TInt I128 in let v := SInt I128 1 in
-  wf_ty t = true /\ has_type t v = true /\ known_class v = 4%N /\ ser v = Err E_SER.
-Proof. vm_compute. repeat split; reflexivity. Qed.
+  wf_ty t = true /\ has_type t v = true /\ known_class q v = 4%N /\ ser v = Err E_SER.
+Proof. destruct q; vm_compute; repeat split; reflexivity. Qed.
 
 (* ---- non-vacuity: a nested type and a value of it meeting the hypotheses -- *)
 Definition ex_ty : sty :=
@@ -708,6 +718,31 @@ Definition ex_val : sval :=
            ([98%N], STuple [SNewtype SNone; SBytes [0%N; 255%N]; SF32 4609434218613702656%N])].
 
 Lemma nonvacuous :
-  wf_ty ex_ty = true /\ has_type ex_ty ex_val = true /\ known_class ex_val = 0%N /\ has_char ex_val = false /\
-  roundtrip ex_ty ex_val = Ok ex_val.
+  wf_ty ex_ty = true /\ has_type ex_ty ex_val = true /\ known_class true ex_val = 0%N /\ has_char ex_val = false /\
+  roundtrip true ex_ty ex_val = Ok ex_val.
 Proof. vm_compute. repeat split; reflexivity. Qed.
+(* ---- every root instance of a class fails (not only the witnesses) ------ *)
+Lemma class1_all_fail q t v :
+  ser_is_null v = true -> roundtrip q (TOption t) (SSome v) = Ok SNone.
+Proof.
+  unfold ser_is_null, roundtrip. cbn [ser]. destruct (ser v) as [g| | |]; try discriminate.
+  destruct g; try discriminate. reflexivity.
+Qed.
+
+Lemma class2_all_fail q b :
+  f64_finite b = false ->
+  roundtrip q TF64 (SF64 b) = Err E_DE /\ roundtrip q TF32 (SF32 b) = Err E_DE.
+Proof. intros H. unfold roundtrip. cbn [ser]. rewrite H. split; reflexivity. Qed.
+
+Lemma class3_all_fail vs n :
+  variant_typed has_type n KTuple (STuple []) vs = true ->
+  roundtrip true (TEnum vs) (SVariant n KTuple (STuple [])) = Err E_DE.
+Proof.
+  unfold roundtrip. cbn [ser mapo bindo]. rewrite de_enum_obj.
+  induction vs as [|[n' [k t]] vs IH]; cbn [variant_typed de_variant]; [discriminate|].
+  destruct (str_eqb n n'); [|exact IH].
+  destruct k; try discriminate. reflexivity.
+Qed.
+
+Lemma class4_all_fail q t w z : is128 w = true -> roundtrip q t (SInt w z) = Err E_SER.
+Proof. intros H. unfold roundtrip. cbn [ser]. rewrite H. reflexivity. Qed.
